@@ -52,7 +52,9 @@ func init() {
 		"between two runs; c04/c05: sources reached through SYMBOLIC LINKS (a matched path that is a link to a file outside the project, files below a directory " +
 		"that is a link; edits and touches go to the target, the link keeps its old mtime), as a rendering choice of any case and as a directed stream; " +
 		"c04: a run CANCELLED BY A FAILING SIBLING between the up-to-date check and the first command (parent with deps [failing task, this task], the task's " +
-		"status command waits on a gate file until the sibling is about to fail); all: `silent: true` on commands / task: calls / tasks / the Taskfile and " +
+		"status command waits on a gate file until the sibling is about to fail); c04: a SECOND ACTIVATION of the same task in one invocation, checking while the " +
+		"first is inside its first command; c04/c05: `ignore_error` on tasks and commands, brace patterns, dangling links next to the sources, generates entries " +
+		"`${G:?}/…` with invocations that do not set G (an error of the check); all: `silent: true` on commands / task: calls / tasks / the Taskfile and " +
 		"--silent on --dry / --status / --summary as rendering choices (silence never changes what runs); non-trivial = history with at least one skip, failure, kill or declined prompt; distinct by case"
 	domains["fingerhist-c04"] = domain{func(c *Ctx) { runFingerHist(c, "c04") }, rule}
 	domains["fingerhist-c05"] = domain{func(c *Ctx) { runFingerHist(c, "c05") }, rule}
@@ -308,6 +310,10 @@ type fhStep struct {
 	Sib bool `json:"sib,omitempty"`
 	// NoG: the environment variable G is NOT set in this invocation (entries `${G:?}/…` cannot be expanded)
 	NoG bool `json:"no_g,omitempty"`
+	// Twin (mode run, a task with sources and WITHOUT status / generates): the task runs as a dependency of a
+	// parent next to a sibling that CALLS THE SAME TASK again while the first activation is inside its first
+	// command (no `run: once`): the second activation's up-to-date check sees what the first's check recorded
+	Twin bool `json:"twin,omitempty"`
 }
 
 // The fields below `Steps` are RENDERING choices: they change how the abstract case is laid out on
@@ -550,6 +556,11 @@ func (r *fhRun) writeTaskfiles() {
 			default:
 				fmt.Fprintf(b, "%s- |\n", indent)
 			}
+			if k == 0 {
+				// a `Twin` step ($TWIN set): the FIRST activation (it wins the mkdir) tells the sibling it is inside
+				// its first command and waits until the second activation has come and gone
+				fmt.Fprintf(b, "%s  if [ -n \"$TWIN\" ] && mkdir \"$TWIN.lock\" 2>/dev/null; then : > \"$TWIN.ready\"; n=0; while [ ! -f \"$TWIN.go\" ] && [ $n -lt 200 ]; do sleep 0.05; n=$((n+1)); done; fi\n", indent)
+			}
 			fmt.Fprintf(b, "%s  if [ \"$KILL_AT\" = \"%d\" ]; then sh -c 'kill -KILL $PPID'; sleep 30; fi\n", indent, k)
 			fmt.Fprintf(b, "%s  printf '%%s\\n' %d >> \"$TRACE\"\n", indent, k)
 			fmt.Fprintf(b, "%s  if [ \"$FAIL_AT\" = \"%d\" ]; then exit 1; fi\n", indent, k)
@@ -574,6 +585,12 @@ func (r *fhRun) writeTaskfiles() {
 		if len(t.Status) > 0 && len(t.Sources) > 0 {
 			fmt.Fprintf(b, "  zs%d:\n    deps: [zf%d, %s]\n", i, i, yamlQ(name))
 			fmt.Fprintf(b, "  zf%d:\n    cmds:\n      - |\n        n=0; while [ ! -f \"$GATE.ready\" ] && [ $n -lt 200 ]; do sleep 0.05; n=$((n+1)); done\n        : > \"$GATE\"; exit 1\n", i)
+		}
+		// the parent and the sibling of a `Twin` step: the sibling waits until the first activation is inside its
+		// first command, calls the task again, and lets the first activation go on
+		if len(t.Sources) > 0 && len(t.Status) == 0 && len(t.Generates) == 0 {
+			fmt.Fprintf(b, "  zt%d:\n    deps: [%s, zd%d]\n", i, yamlQ(name), i)
+			fmt.Fprintf(b, "  zd%d:\n    cmds:\n      - |\n        n=0; while [ ! -f \"$TWIN.ready\" ] && [ $n -lt 200 ]; do sleep 0.05; n=$((n+1)); done\n      - task: %s\n      - ': > \"$TWIN.go\"'\n", i, yamlQ(name))
 		}
 		// the helpers of the `task:` calls: same file (a call inside an included file names a task of
 		// that file), internal, no sources / dir / prompt: precondition, then the command itself
@@ -687,7 +704,7 @@ func (r *fhRun) caseLine(src, gen [][][]int) string {
 	for _, s := range r.d.Steps {
 		switch s.Kind {
 		case "inv":
-			fmt.Fprintf(&sb, " I %d %d %d %s %d %d %s %s", s.Task, fhModes[s.Mode], s.Now, b2s(s.Yes), s.Fail+1, s.Kill+1, b2s(s.Sib), b2s(!s.NoG))
+			fmt.Fprintf(&sb, " I %d %d %d %s %d %d %s %s %s", s.Task, fhModes[s.Mode], s.Now, b2s(s.Yes), s.Fail+1, s.Kill+1, b2s(s.Sib), b2s(!s.NoG), b2s(s.Twin))
 		case "write":
 			fmt.Fprintf(&sb, " W %d %s %d", r.pid[s.Path], hx(s.Content), s.Mtime)
 		case "touch":
@@ -1046,13 +1063,13 @@ func (r *fhRun) invoke(s fhStep) fhInv {
 		args = append(args, "--silent")
 	}
 	// `silent` on the task / the Taskfile / the command line also suppresses `Task "x" is up to date`
-	hidden := s.Silent || t.Silent || r.d.SilentFile
+	hidden := (s.Silent || t.Silent || r.d.SilentFile) && !s.Twin
 	probe := false
 	if hidden && s.Mode == "dry" {
 		// what a silenced --dry decides is not printed: ask --status (the same check, also dry) first
 		probe = r.invokeRaw([]string{"--status", t.Name}, "", "") == nil
 	}
-	gate := ""
+	gate, twin := "", ""
 	switch s.Mode {
 	case "run":
 		if s.Sib {
@@ -1065,6 +1082,19 @@ func (r *fhRun) invoke(s fhStep) fhInv {
 			gate = filepath.Join(r.work, "gate")
 			os.Remove(gate)
 			os.Remove(gate + ".ready")
+			args = append(args, parent)
+			break
+		}
+		if s.Twin {
+			ti := s.Task % len(r.d.Tasks)
+			parent := fmt.Sprintf("zt%d", ti)
+			if j := strings.Index(t.Name, ":"); j > 0 {
+				parent = t.Name[:j+1] + parent
+			}
+			twin = filepath.Join(r.work, "twin")
+			os.RemoveAll(twin + ".lock")
+			os.Remove(twin + ".ready")
+			os.Remove(twin + ".go")
 			args = append(args, parent)
 			break
 		}
@@ -1096,7 +1126,7 @@ func (r *fhRun) invoke(s fhStep) fhInv {
 		kill = strconv.Itoa(s.Kill)
 	}
 	cmd.Env = []string{"PATH=/usr/local/bin:/usr/bin:/bin", "HOME=" + filepath.Join(r.work, "home"), "NO_COLOR=1",
-		"TRACE=" + trace, "R=" + r.root, "FAIL_AT=" + fail, "KILL_AT=" + kill, "GATE=" + gate}
+		"TRACE=" + trace, "R=" + r.root, "FAIL_AT=" + fail, "KILL_AT=" + kill, "GATE=" + gate, "TWIN=" + twin}
 	if !s.NoG {
 		cmd.Env = append(cmd.Env, "G=.")
 	}
@@ -1318,8 +1348,12 @@ func (r *fhRun) run(only map[int]bool) {
 			if matched != nil && newest > matched.time {
 				newer = "1" // some source is newer than the last attempt
 			}
-			return fmt.Sprintf("viol kind=%s method=%s gens=%s writer=%s wmode=%s wexit=%s wtask=%s lastatt=%s laexit=%s srcnewer=%s marker=%s vouch=%s wskip=%s",
-				kind, method, b2s(gens), w, wmode, wexit, wtask, la, laexit, newer, hasMarker, vouch, wskip)
+			tw := ""
+			if s.Twin && len(o.ran) > 0 {
+				tw = " twin=1" // "up to date" was said by a SECOND activation while the first ran its commands
+			}
+			return fmt.Sprintf("viol kind=%s method=%s gens=%s writer=%s wmode=%s wexit=%s wtask=%s lastatt=%s laexit=%s srcnewer=%s marker=%s vouch=%s wskip=%s%s",
+				kind, method, b2s(gens), w, wmode, wexit, wtask, la, laexit, newer, hasMarker, vouch, wskip, tw)
 		}
 		// C04: skip ⇒ goodRun
 		if s.Mode == "run" && o.skipped && len(t.Sources) > 0 && !good {
@@ -1973,6 +2007,49 @@ func (g *fhGen) genDirected4to6(kind string) fhCase {
 	return d
 }
 
+// genTwin: the CONCURRENT-ACTIVATION stream (c04).  One task with sources, without status / generates, of
+// either method; the source is in place (optionally a first run and an edit); then the task is activated
+// TWICE in one invocation — the second activation checks while the first is inside its first command.
+func (g *fhGen) genTwin() fhCase {
+	t := fhTask{Name: g.pick([]string{"x", "y", "a-b", "a:b", "a_b"}), Cmds: []fhCmd{{}}}
+	switch g.c.Rng.Intn(3) {
+	case 0:
+		t.Method = "timestamp"
+	case 1:
+		t.Method = "checksum"
+	}
+	root := ""
+	if !strings.Contains(t.Name, ":") && g.chance(25) {
+		t.Dir = "sub"
+		root = "sub/"
+	}
+	t.Sources = []fhGlob{{Glob: g.pick([]string{"a.e", "*.e", "**/*.e"})}}
+	if g.chance(40) {
+		t.Cmds = append(t.Cmds, fhCmd{Writes: []fhWrite{{Path: root + "out0_1.o", Content: "o"}}})
+	}
+	var d fhCase
+	d.Tasks = []fhTask{t}
+	add := func(st fhStep) {
+		st.Fail, st.Kill = -1, -1
+		switch st.Kind {
+		case "inv":
+			st.Yes, st.Now = true, int64(1000*(len(d.Steps)+1))
+		case "write":
+			st.Mtime = int64(1000*len(d.Steps) + 500)
+		}
+		d.Steps = append(d.Steps, st)
+	}
+	src := root + "a.e"
+	add(fhStep{Kind: "write", Path: src, Content: g.content()})
+	if g.chance(50) {
+		add(fhStep{Kind: "inv", Mode: "run"})
+		add(fhStep{Kind: "write", Path: src, Content: g.content() + "t"})
+	}
+	add(fhStep{Kind: "inv", Mode: "run", Twin: true})
+	add(fhStep{Kind: "inv", Mode: g.pick([]string{"run", "status", "listjson"})})
+	return d
+}
+
 // genSibling: the CANCELLED-BY-A-SIBLING stream (c04).  One task with sources and a `status:` file, of
 // either method; the source and the status file are in place; optionally a first successful run and an
 // edit; then the task runs as a dependency next to a sibling that fails while the task's status command
@@ -2043,6 +2120,9 @@ func (g *fhGen) gen(maxLen int) fhCase {
 	}
 	if g.prop == "c04" && g.chance(4) {
 		return g.genDirected4to6("checkerr")
+	}
+	if g.prop == "c04" && g.chance(4) {
+		return g.genTwin()
 	}
 	if g.prop == "c05" && g.chance(8) {
 		return g.genDirected4to6(g.pick([]string{"ignore", "drop"}))
@@ -2373,6 +2453,15 @@ func (g *fhGen) gen(maxLen int) fhCase {
 				s.NoG = true
 			}
 		}
+		plainCmds := t.Method != "none"
+		for _, cm := range t.Cmds {
+			plainCmds = plainCmds && cm.Need == ""
+		}
+		if s.Mode == "run" && g.prop == "c04" && plainCmds && len(t.Status) == 0 && len(t.Generates) == 0 && len(t.Sources) > 0 && g.chance(10) {
+			s.Twin, s.Yes, s.NoG = true, true, false
+			d.Steps = append(d.Steps, s)
+			continue
+		}
 		if s.Mode == "run" && g.prop == "c04" && len(t.Status) > 0 && len(t.Sources) > 0 && g.chance(12) {
 			s.Sib, s.Yes, s.NoG = true, true, false // (whose error the parent reports when both happen is a race)
 			d.Steps = append(d.Steps, s)
@@ -2441,7 +2530,11 @@ func (g *fhGen) decorate(d *fhCase) {
 			d.Dangling = append(d.Dangling, root+g.pick([]string{"zz.e", "d/zz.e", "e/zz.x", "zz.x"}))
 		}
 	}
-	if g.chance(35) {
+	hasTwin := false
+	for _, st := range d.Steps {
+		hasTwin = hasTwin || st.Twin
+	}
+	if g.chance(35) && !hasTwin { // (a twin step is observed through the "is up to date" message)
 		for i := range d.Tasks {
 			t := &d.Tasks[i]
 			t.Silent = g.chance(25)
@@ -2536,6 +2629,10 @@ func runFingerHist(c *Ctx, prop string) {
 				}
 				if s.NoG {
 					c.Hit("env:G-unset")
+				}
+				if s.Twin {
+					c.Hit("env:second-activation")
+					interesting = true
 				}
 				if s.Fail >= 0 {
 					c.Hit("env:fail")
